@@ -212,6 +212,19 @@ def _optimise_operator(op):
 
     equal_nodes(op)
 
+    heights = {}
+
+    def height(op):
+        if isinstance(op, _OpChain):
+            return max([height(oo) for oo in op._ops if isnode(oo)], default=0)
+        if not isnode(op):
+            return 0
+        if id(op) not in heights:
+            heights[id(op)] = 1 + max(height(op._op1), height(op._op2))
+        return heights[id(op)]
+
+    height(op)
+
     key_temp = []
     key_list_op, same_op = equal_leaves(leaves)
     cond = True
@@ -230,6 +243,9 @@ def _optimise_operator(op):
     subtree_leaves = set()
 
     get_duplicate_keys(key_list_node, id_dic)
+    # A shared subtree which contains another shared subtree has to be inserted first
+    # (i.e. evaluated later): sort by decreasing height
+    key_list_node.sort(key=lambda key: -heights[key])
 
     for key in key_list_node:
         same_node[key] = [nodes[id_dic[key][0]][0],
